@@ -3,9 +3,10 @@
    stay Coq datatypes.  No Extract Constant. *)
 From Coq Require Extraction.
 From Coq Require Import ExtrOcamlBasic.
-From CacheV Require Import Base SpecMap Client CacheModel CacheOfModel Ops Exec TableModel TabExec XMachine XExec.
+From CacheV Require Import Base SpecMap Client CacheModel CacheOfModel Ops Exec TableModel TabExec XMachine XExec XMachineS XExecS.
 Extraction Language OCaml.
 Extraction "model.ml"
   x_new x_newdefault x_step x_spec_next x_spec_okb fn_of vis_of z_push_digit z_digits z_is_neg z_small
   x_machine_init x_machine_step x_store x_loadorstore x_loadandstore x_loadorcompute x_compute x_loadanddelete x_cur_table pack_meta
+  s_machine_init s_machine_step s_store s_loadorstore s_loadandstore s_loadorcompute s_compute s_loadanddelete s_range_all s_range_del s_range_store s_range_ins s_cur_table s_word_val
   x_tab_new x_tab_step x_compute_op x_loadorcompute_op x_tab_cur t_seed t_chains t_size.
